@@ -136,11 +136,11 @@ class SpacesAroundOperatorsFilter:
         tidx, token = tlist.token_next_by(t=ttypes)
         while token:
             nidx, next_ = tlist.token_next(tidx, skip_ws=False)
-            if next_ and next_.ttype != T.Whitespace:
+            if next_ and not next_.is_whitespace:
                 tlist.insert_after(tidx, sql.Token(T.Whitespace, ' '))
 
             pidx, prev_ = tlist.token_prev(tidx, skip_ws=False)
-            if prev_ and prev_.ttype != T.Whitespace:
+            if prev_ and not prev_.is_whitespace:
                 tlist.insert_before(tidx, sql.Token(T.Whitespace, ' '))
                 tidx += 1  # has to shift since token inserted before it
 
